@@ -230,6 +230,21 @@ def gen(rng: random.Random, tier: str, index: int) -> dict:
     fmt = weighted(rng, [("akai", 6), ("roland", 2), ("cdda", 2)])
     if fmt == "akai":
         model = gen_akai(rng, max_parts=2, max_vols=3, max_files=4, big=False, programs=True)
+        if rng.random() < 0.12:
+            # make sure some disks carry a multi-sector stereo pair whose sectors interleave
+            from ..gen_akai import gen_sample
+            n = rng.randint(9000, 15000)
+            vol = {"name": "PAIRS", "vtype": 3, "dir": {"mode": "chain", "policy": "contiguous", "seed": 0}, "files": []}
+            for side in "LR":
+                f = gen_sample(rng, "WIDE -" + side, "c13p%d%s" % (rng.getrandbits(20), side), n=n, markers=False, rich_header=False)
+                f["policy"], f["pair"], f["rate"] = "random", ["WIDE", side], 44100
+                vol["files"].append(f)
+            model["partitions"][0]["volumes"].append(vol)
+            model["partitions"][0]["spare"] = max(model["partitions"][0].get("spare", 0), 6)
+            try:
+                A.build(model)
+            except ScenarioInvalid:
+                model["partitions"][0]["volumes"].pop()
     elif fmt == "roland":
         model = gen_roland(rng, max_samples=4, max_perf=2, max_vols=2, max_clusters=rng.choice([2, 2, 5]))
     else:
@@ -245,7 +260,7 @@ def gen(rng: random.Random, tier: str, index: int) -> dict:
     img, lay = (A.build(model) if fmt == "akai" else R.build(model))
     tg = _targets(sc, img, lay)
     for _ in range(weighted(rng, [(1, 4), (2, 3), (3, 2), (4, 1)])):
-        k = weighted(rng, [("target", 7), ("uniform", 2), ("cut", 1), ("eio", 1)])
+        k = weighted(rng, [("target", 7), ("uniform", 2), ("cut", 2.5), ("eio", 1)])
         if k == "target" and tg:
             t = rng.choice(tg)
             kind, off, width = t[0], t[1], t[2]
@@ -268,7 +283,32 @@ def gen(rng: random.Random, tier: str, index: int) -> dict:
             for o in offs:
                 sc["faults"].append(["rot", "uniform_rot", o, [rng.getrandbits(8)]])
         elif k == "cut":
-            sc["faults"].append(["cut", rng.randrange(0, len(img) + 1)])
+            spots = []
+            if fmt == "akai":
+                spots = [a for _, _, f in lay.files() for a in f.sectors_abs]
+            elif fmt == "roland":
+                spots = [a for sl in lay.samples for a in sl.clusters_abs]
+            pair_cut = None
+            if fmt == "akai":
+                # both halves of a stereo pair lose their tail while their headers stay readable
+                for pl in lay.partitions:
+                    for vl in pl.volumes:
+                        vm = model["partitions"][pl.idx]["volumes"][vl.idx]
+                        halves = [fl for fl in vl.files if vm["files"][fl.idx].get("pair") and len(fl.sectors_abs) >= 2]
+                        for a in halves:
+                            for b in halves:
+                                if a is not b and vm["files"][a.idx]["pair"][0] == vm["files"][b.idx]["pair"][0]:
+                                    lo = max(a.sectors_abs[0], b.sectors_abs[0], max(vl.dir_abs)) + A.SECTOR
+                                    hi = min(max(a.sectors_abs), max(b.sectors_abs))
+                                    if lo <= hi:
+                                        pair_cut = rng.choice([lo, hi, hi + 1, (lo + hi) // 2])
+            if pair_cut is not None and rng.random() < 0.8:
+                sc["faults"].append(["cut", pair_cut])
+            elif spots and rng.random() < 0.7:
+                # the medium ends inside the sample data: listings still work, the export runs into unreadable sectors
+                sc["faults"].append(["cut", rng.choice(spots) + rng.choice([0, 1, 2, 4096, 8191])])
+            else:
+                sc["faults"].append(["cut", rng.randrange(0, len(img) + 1)])
         else:
             sc["faults"].append(["eio", rng.randint(1, 3000)])
     return sc
